@@ -1469,6 +1469,38 @@ impl DFA {
     }
 }
 
+#[cfg(feature = "verif")]
+impl InpId {
+    pub fn verif_index(&self) -> u32 {
+        self.0
+    }
+}
+
+#[cfg(feature = "verif")]
+impl DFAId {
+    pub fn verif_index(&self) -> usize {
+        self.0
+    }
+}
+
+#[cfg(feature = "verif")]
+impl DFAInternPool {
+    pub fn verif_len(&self) -> usize {
+        self.store.len()
+    }
+
+    pub fn verif_lookup(&self, index: usize) -> &DFA {
+        self.store.get_index(index).unwrap()
+    }
+}
+
+#[cfg(feature = "verif")]
+impl DFA {
+    pub fn verif_inputs(&self) -> Vec<Inp> {
+        self.inputs.elems().cloned().collect()
+    }
+}
+
 #[cfg(test)]
 mod tests {
     use std::cell::RefCell;
